@@ -3,7 +3,7 @@
 Engine: harness/h_rsa.c (flavour asan, linked with OpenSSL libcrypto).  See
 DESIGN.md section C10.  The work is a fixed table of units (fixture key x
 section x implementation, one 'compute' unit per key, keygen units); unit u runs
-on worker u % 16 with PRNG stream (seed, u).  --cases is the per-unit budget in
+on worker (u + u//16) % 16 with PRNG stream (seed, u).  --cases is the per-unit budget in
 "512-bit i15 private operations"; iteration counts derive from it, never from
 time.
 """
